@@ -147,7 +147,7 @@ def run(prop, tier, seed):
                     try:
                         v = opsk[key].linform(E)[0]
                     except Exception as ex:
-                        recs.append({"cls": cls, "ok": False, "exc": repr(ex)[:120], "k": kk})
+                        recs.append({"cls": cls, "ok": False, "exc": repr(ex)[:120], "time_level": kk})
                         continue
                     ref = mr.element_integral(name, u, *E.time_interval, p0, p1)
                     recs.append({"cls": cls, "dev": jd.dev(v, ref, 1e-5 * abs(ref)), "value": repr(float(v)), "ref": repr(ref), "time_level": kk,
